@@ -1,5 +1,18 @@
 (* Model of internal/parser/py_generator.go at the level of the codec IR.
-   Faithful to the code, defects included.  Model only: no proofs here. *)
+   Faithful to the code, defects included.  Model only: no proofs here.
+
+   Python specifics (see harness/extract_py.py for the text side):
+   - the member list is the body of __init__; a non-repeated Basic/Length/CheckSum field whose
+     type is not a key of pyBasicTypeMap (e.g. "char") gets NO member line, so member indices
+     are positions in the filtered list [py_members]; members are referred to by name, so a step
+     is tagged with the first member carrying the field's snake name ([undefined_mark] if none);
+   - method names carry width and byte order: pyBasicTypeMap[t].Le is "t_le" except for i8/u8
+     where it is "i8"/"u8", so a 1-byte scalar write/read never has the little-endian suffix;
+   - "self.m.encode(buffer)" is dynamic in Python; it is EObj when the member's decoder
+     constructs a class ("self.m = T()"), EDyn when it comes from a factory;
+   - the "if self.m is not None:" guard of a match member has no counterpart in the IR (EDyn);
+   - the length patch has no cast ("self.l = end - start"; "write_T_at(pos, self.l)"): cast_w
+     is the width of the write method, slice is None.                                         *)
 From FP Require Export Common.
 Open Scope string_scope.
 Open Scope list_scope.
@@ -7,5 +20,162 @@ Open Scope list_scope.
 Section Py.
   Variable M : bmodel.
 
-  Definition gen_py : prog := [].
+  Definition py_pad := padarg_of norm_py M.
+
+  (* pyBasicTypeMap has exactly the ten numeric types (the keys of ty_width); the method suffix is
+     typ.Le under LittleEndian, typ.BasicType otherwise; Le = BasicType for the 1-byte types *)
+  Definition py_ty (t : string) : option (nat * bool) :=
+    match ty_width t with
+    | Some w => Some (w, andb (le_of M) (negb (Nat.eqb w 1)))
+    | None => None
+    end.
+
+  Definition py_scalar (f : field) : option (nat * bool) :=
+    match field_get_type f with Some t => py_ty t | None => None end.
+
+  (* "typ := pyBasicTypeMap[...]" without the ok test: the zero PyType, method "write_" *)
+  Definition py_method (o : option (nat * bool)) : nat * bool :=
+    match o with Some x => x | None => (0%nat, false) end.
+
+  (* generateInitMethod: does the field get a "self.<snake> = ..." line ? *)
+  Definition py_has_member (f : field) : bool :=
+    if f_rep f then true
+    else match f_attr f with
+         | ABasic _ | ALen _ _ | ACheck _ _ => match py_scalar f with Some _ => true | None => false end
+         | _ => true
+         end.
+
+  Definition py_members (p : packet) : list field := filter py_has_member (p_fields p).
+
+  (* a name used as "self.<snake n>" or "<snake n>_pos": the member it denotes *)
+  Definition sn_index (p : packet) (n : string) : nat :=
+    match index_where (fun n' => String.eqb (snake M n') (snake M n)) (py_members p) 0 with
+    | Some i => i
+    | None => undefined_mark
+    end.
+
+  (* generateEncodeField *)
+  Definition py_enc_elem (path : string) (f : field) : estep :=
+    let le := le_of M in
+    match f_attr f with
+    | ABasic _ | ACheck _ _ => match py_scalar f with Some (w, l) => EInt w l | None => ENone "omitted" end
+    | AFixed n _ => EFixed n (py_pad (f_attr f))
+    | ADyn => EStr (cfg_str_w M) le le                       (* write_string{,_le}(buffer, self.m, '<cfg>') *)
+    | AObj _ _ _ _ => match obj_path path f with Some ty => EObj ty | None => ENone "unresolved" end
+    | AMatch _ _ _ => EDyn                                   (* guarded by "is not None" *)
+    | ALen _ _ | ANil => ENone "marker"                      (* default branch *)
+    end.
+
+  (* the packet's factory: one "<lowerCamel(p)>MessageFactory" per packet, filled from p.MatchFields in
+     sorted key order; every block registers under the same name.  The registered value is the raw pair
+     value, which names an emitted class only if some class (ToCamel(packet name)) is spelled that way. *)
+  Fixpoint py_classes (path : string) (p : packet) {struct p} : list (string * string) :=
+    match p with
+    | mkPacket pname _ _ fs _ =>
+        (fix inl (fs : list field) : list (string * string) :=
+           match fs with
+           | [] => []
+           | mkField fname (AObj true _ _ (Some q)) _ _ :: r => py_classes (path_join path fname) q ++ inl r
+           | _ :: r => inl r
+           end) fs ++ [(camel M pname, path)]
+    end.
+
+  Definition py_all_classes : list (string * string) :=
+    flat_map (fun p => py_classes (p_name p) p) (m_packets M).
+
+  Definition py_class_ref (v : string) : string :=
+    match assoc py_all_classes v with Some path => path | None => "?" ++ v end.
+
+  Definition py_table (p : packet) : list (string * string) :=
+    flat_map (fun '(_, pairs) => map (fun mp => (mp_key mp, py_class_ref (mp_value mp))) pairs) (p_mfs p).
+
+  (* generateEncodeMethod; [j] = position of the field.  Every reference to the field is by name
+     ("self.<snake>"): the member it denotes is the first one of that name (two fields whose names
+     convert to the same snake name share one attribute) *)
+  Definition py_enc_step (path : string) (p : packet) (j : nat) (f : field) : list (nat * estep) :=
+    let i := sn_index p (f_name f) in
+    match f_len f with
+    | LTarget =>
+        (* "self.<f>.encode(buffer)" whatever the attribute and the repeat flag *)
+        let inner := if f_rep f then ENone "encode on a list"
+                     else match f_attr f with
+                          | AMatch _ _ _ => EDyn
+                          | AObj _ _ _ _ => match obj_path path f with Some ty => EObj ty | None => ENone "unresolved" end
+                          | _ => ENone "encode on a non-codec member"
+                          end in
+        let lf := match len_field_index p with Some li => nth_error (p_fields p) li | None => None end in
+        let '(w, le) := py_method (match lf with Some lf => py_scalar lf | None => None end) in
+        (* "<len>_pos" is defined by the placeholder of the length field, if that came earlier *)
+        let mark := match len_field_index p, p_lenf p with
+                    | Some li, Some ln => if Nat.ltb li j then sn_index p ln else undefined_mark
+                    | _, _ => undefined_mark
+                    end in
+        [(i, ESpan inner i); (i, EPatch mark i w le w None)]
+    | _ =>
+      match f_attr f with
+      | ALen _ _ =>
+          let mi := sn_index p (f_name f) in                 (* "<len>_pos = buffer.write_index" *)
+          let '(w, le) := py_method (py_scalar f) in
+          [(mi, EMarkZero mi w le)]
+      | ACheck alg _ =>
+          (* the service block always; the write only if the type is known *)
+          [(i, match py_scalar f with Some (w, le) => ECheck alg w le | None => ECheck alg 0 false end)]
+      | _ =>
+          if f_rep f
+          then let '(lw, lle) := py_method (py_ty (c_list (m_cfg M))) in       (* buffer.write_<list type>(size) *)
+               [(i, EList lw lle lle (py_enc_elem path f))]
+          else [(i, py_enc_elem path f)]
+      end
+    end.
+
+  (* generateDecodeField *)
+  Definition py_dec_elem (path : string) (p : packet) (f : field) : dstep :=
+    let le := le_of M in
+    match f_attr f with
+    | ABasic _ | ALen _ _ | ACheck _ _ => match py_scalar f with Some (w, l) => DInt w l | None => DNone "omitted" end
+    | AFixed n _ => DFixed n (py_pad (f_attr f))
+    | ADyn => DStr (cfg_str_w M) le false
+    | AObj _ _ _ _ => match obj_path path f with Some ty => DObj ty | None => DNone "unresolved" end
+    | AMatch (Some k) _ _ => DDispatch (py_table p) false (sn_index p k) true
+    | AMatch None _ _ => DNone "unresolved key"
+    | ANil => DNone "marker"
+    end.
+
+  (* generateDecodeMethod: read_len{,_le}(buffer, '<list type>') + for loop *)
+  Definition py_dec_step (path : string) (p : packet) (f : field) : nat * dstep :=
+    let i := sn_index p (f_name f) in
+    let e := py_dec_elem path p f in
+    if f_rep f
+    then match e with
+         | DNone _ => (undefined_mark, DList (cfg_list_w M) (le_of M) false e)   (* empty / marker loop body names no member *)
+         | _ => (i, DList (cfg_list_w M) (le_of M) false e)
+         end
+    else (i, e).
+
+  Fixpoint py_number {A} (j : nat) (l : list A) : list (nat * A) :=
+    match l with [] => [] | x :: r => (j, x) :: py_number (S j) r end.
+
+  Definition py_ir (path : string) (p : packet) : pkt_ir :=
+    mkPkt (length (py_members p))
+          (flat_map (fun '(j, f) => py_enc_step path p j f) (py_number 0 (p_fields p)))
+          (map (py_dec_step path p) (p_fields p)).
+
+  (* canonical order of IR.md (the file order differs: referenced packets first, hasGen) *)
+  Fixpoint py_packet (path : string) (p : packet) {struct p} : prog :=
+    match p with
+    | mkPacket _ _ _ fs _ =>
+        (fix inl (fs : list field) : prog :=
+           match fs with
+           | [] => []
+           | mkField fname (AObj true _ _ (Some q)) _ _ :: r => py_packet (path_join path fname) q ++ inl r
+           | _ :: r => inl r
+           end) fs ++ [(path, py_ir path p)]
+    end.
+
+  (* Generate: binModel.RootPacket.Name is dereferenced first: no root packet, no output (panic) *)
+  Definition gen_py : prog :=
+    match m_root M with
+    | None => []
+    | Some _ => flat_map (fun p => py_packet (p_name p) p) (m_packets M)
+    end.
 End Py.
